@@ -4,7 +4,7 @@ MODE 'euler' (default) or 'rk45' (SciPy-backed, used by trajectory probes)."""
 import numpy as np
 
 LOG = []
-SCRIPT = {"fracs": [1.0], "mode": "euler", "hsug": None, "hsug_by_stepper": {}}
+SCRIPT = {"fracs": [1.0], "mode": "euler", "hsug": None, "hsug_by_stepper": {}, "check_jac": False}
 
 
 class _Stepper:
@@ -52,6 +52,22 @@ class evolve:
         if self.stepper.jac is not None and isinstance(self.stepper, step_bsimp):
             J, dfdt = self.stepper.jac(t, y0, self.stepper.args)
             LOG.append(("jac", t, np.array(J).tolist()))
+            if SCRIPT.get("check_jac"):
+                # is the Jacobian handed to the implicit stepper the derivative of the function it integrates?  (central
+                # differences, minus the rounding of the two evaluations)
+                Jn = np.array(J, dtype=float)
+                dev = 0.0
+                hfd = 1e-6
+                for j in range(len(y0)):
+                    yp, ym = y0.copy(), y0.copy()
+                    yp[j] += hfd
+                    ym[j] -= hfd
+                    fp = np.array(self.stepper.func(t, yp, self.stepper.args), dtype=float)
+                    fm = np.array(self.stepper.func(t, ym, self.stepper.args), dtype=float)
+                    fd = (fp - fm) / (2 * hfd)
+                    noise = (np.abs(fp) + np.abs(fm)) * 2.3e-16 / (2 * hfd)
+                    dev = max(dev, float(np.max(np.maximum(np.abs(Jn[:, j] - fd) - 20 * noise, 0.0) / (1.0 + np.abs(fd)))))
+                LOG.append(("jacdev", t, dev, [float(v) for v in y0]))
         LOG.append(("apply", type(self.stepper).__name__, t, t1, h, t + hh, [float(v) for v in y1], [float(v) for v in y0]))
         hs = hh if SCRIPT["hsug"] is None else SCRIPT["hsug"]
         if type(self.stepper).__name__ in SCRIPT["hsug_by_stepper"]:
